@@ -50,6 +50,8 @@ func zzIsSep(c byte) bool {
 // zzBody: does body match u[j:] with the match ending anywhere (mustEnd=false) or at the end of u?
 // '*' any string, '^' one separator character or the end of the address, everything else a literal
 // compared case-insensitively.
+var zzMatchCase bool
+
 func zzBody(body, u string, j int, mustEnd bool) bool {
 	if body == "" {
 		return !mustEnd || j == len(u)
@@ -69,7 +71,7 @@ func zzBody(body, u string, j int, mustEnd bool) bool {
 		// "or the end of the address"
 		return j == len(u) && zzBody(body[1:], u, j, mustEnd)
 	default:
-		if j < len(u) && strings.EqualFold(u[j:j+1], body[:1]) {
+		if j < len(u) && (u[j] == body[0] || (!zzMatchCase && strings.EqualFold(u[j:j+1], body[:1]))) {
 			return zzBody(body[1:], u, j+1, mustEnd)
 		}
 		return false
@@ -78,7 +80,10 @@ func zzBody(body, u string, j int, mustEnd bool) bool {
 
 func zzHostChar(c byte) bool {
 	// (compared case-insensitively, like the rest of the pattern)
-	return c >= 'a' && c <= 'z' || c >= 'A' && c <= 'Z' || c >= '0' && c <= '9' || c == '-' || c == '_' || c == '.'
+	if c >= 'A' && c <= 'Z' {
+		return !zzMatchCase // the class in the documentation is lower-case; other rules compare case-insensitively
+	}
+	return c >= 'a' && c <= 'z' || c >= '0' && c <= '9' || c == '-' || c == '_' || c == '.'
 }
 
 // zzRef: the documented language of a basic (non-regex) pattern.
@@ -103,7 +108,7 @@ func zzRef(p, u string) bool {
 	case 2:
 		// scheme "://" then optionally any number of subdomain labels ending with a dot
 		for _, sch := range []string{"http://", "https://", "ws://", "wss://"} {
-			if !strings.HasPrefix(u, sch) {
+			if !(strings.HasPrefix(u, sch) || (!zzMatchCase && len(u) >= len(sch) && strings.EqualFold(u[:len(sch)], sch))) {
 				continue
 			}
 			at := len(sch)
@@ -130,7 +135,7 @@ func TestZZVerifBounded(t *testing.T) {
 	plen := zzEnvInt("VERIF_BOUND_PLEN", 4)
 	ulen := zzEnvInt("VERIF_BOUND_ULEN", 5)
 	prop := os.Getenv("VERIF_BOUND_PROP")
-	const maskAlpha = "ab.*^|/"
+	const maskAlpha = "abB.*^|/"
 	const urlAlpha = "aB./:"
 	prefixes := []string{"", "http://", "https://a.", "ws://b.a.", "ftp://"}
 
@@ -148,20 +153,47 @@ func TestZZVerifBounded(t *testing.T) {
 			fmt.Printf("BOUNDED-VIOLATION prop=%s kind=%s pattern=%q url=%q %s\n", prop, kind, pattern, url, detail)
 		}
 	}
-	check := func(pattern string, regexRule bool) {
-		f, err := NewNetworkRule(pattern, 0)
+	var curURLs []string
+	check := func(pattern string, regexRule bool, matchCase bool) {
+		text := pattern
+		if matchCase {
+			text += "$match-case"
+		}
+		f, err := NewNetworkRule(text, 0)
 		if err != nil || f == nil {
 			return
 		}
 		if f.IsRegexRule() != regexRule {
 			return
 		}
+		zzMatchCase = matchCase
+		if prop == "C03" && !regexRule {
+			// the only rewriting the constructor may do: one trailing "/*" becomes "^"
+			want := pattern
+			if strings.HasSuffix(want, "/*") {
+				want = want[:len(want)-2] + "^"
+			}
+			if f.pattern != want {
+				report("stored-pattern", pattern, "", fmt.Sprintf("stored=%q expected=%q", f.pattern, want))
+			}
+		}
 		accepted := 0
 		try := func(u string) {
 			evals++
-			real := f.matchPattern(&Request{URL: u, URLLowerCase: strings.ToLower(u)})
+			req := &Request{URL: u, URLLowerCase: strings.ToLower(u), RequestType: TypeOther}
+			real := f.matchPattern(req)
 			if real {
 				accepted++
+			}
+			if prop == "C05" && real && !f.Match(req) {
+				// no other modifier is present: only the shortcut pre-check can have rejected it
+				kind := "precheck-mask"
+				if regexRule {
+					kind = "precheck-regex"
+				}
+				if !(regexRule && !strings.Contains(strings.ToLower(u), f.Shortcut)) { // (regex classes are reported below)
+					report(kind, text, u, fmt.Sprintf("shortcut=%q pattern accepts, Match rejects", f.Shortcut))
+				}
 			}
 			switch prop {
 			case "C03":
@@ -195,27 +227,46 @@ func TestZZVerifBounded(t *testing.T) {
 				}
 			}
 		} else {
-			for _, u := range urls {
+			for _, u := range curURLs {
 				try(u)
 			}
 		}
-		if accepted > 0 && accepted < len(urls) {
+		if accepted > 0 && accepted < len(curURLs) {
 			nontrivial++
 		}
 	}
+	curURLs = urls
 	zzWords(maskAlpha, plen, func(p string) {
 		if isRegexPattern(p) {
 			return
 		}
-		check(p, false)
+		check(p, false, false)
+		if len(p) <= plen-1 {
+			check(p, false, true) // $match-case
+		}
 	})
+	// characters that are operators of the regular-expression syntax must be plain literals in a basic pattern
+	const specialAlpha = "a2{}+?()[]$\\."
+	var surls []string
+	zzWords(specialAlpha, 3, func(s string) { surls = append(surls, s) })
+	curURLs = surls
+	zzWords(specialAlpha, 3, func(p string) {
+		if isRegexPattern(p) || strings.Contains(p, "$") && !strings.HasSuffix(p, "\\$") && strings.Contains(p, "$") {
+			// "$" starts the modifier list of a rule text unless escaped: leave those to the parser
+			if strings.Contains(p, "$") {
+				return
+			}
+		}
+		check(p, false, false)
+	})
+	curURLs = urls
 	if prop == "C05" {
 		// regular-expression rules: /re/ over a small operator alphabet
 		zzWords("ab|.\\d*", plen, func(re string) {
 			if re == "" || strings.HasSuffix(re, "\\") {
 				return
 			}
-			check("/"+re+"/", true)
+			check("/"+re+"/", true, false)
 		})
 	}
 	for k, n := range perKind {
